@@ -14,7 +14,9 @@ Beyond single eager constructions the generator exercises (i) object usages: an 
 and put through partial accesses first (one depth, a slice, a norm) must afterwards hold the COMPLETE landscape, and
 every depth handed out on the way must be the definition's; (ii) call histories in one process on shared argument
 objects (harness/history.py): the same list of diagrams passed to several constructors, diagrams that differ below
-print precision, calls that raise half-way followed by clean ones.  Usage cases go through the Coq model like any
+print precision, calls that raise half-way followed by clean ones; (iii) interrupted computations: the sweep over a
+well-formed diagram is stopped half-way by an exception (out of a progress message of compute_landscape(verbose=True), or at
+an arbitrary line), the caller catches it and goes on using the same object.  Usage cases go through the Coq model like any
 other case (their final critical_pairs); history steps are judged by the spec predicate only.
 Known finding C03-dup-shortcut: attributed only if the hook trace says the shortcut fired AND the
 output equals the Legacy model (finding_of).
@@ -46,18 +48,29 @@ RULE = ("exact family: bars with integer / half-integer endpoints (scaled by 2^k
         "(thorough: 9-12 bars in 15% of the cases, plus every multiset of <= 3 integer bars in [0,6]); "
         "tolerance family 'offgrid': random doubles with ties made by copying coordinates, compared within "
         "2^-46 x largest magnitude; "
-        "object usages ('usage', 100 quick / 4000 thorough, any of the classes above): the object is built with "
+        "object usages ('usage', 130 quick / 5000 thorough, any of the classes above): the object is built with "
         "compute=False (80%) or eagerly and then put through 1-4 calls, the first of which usually asks for a PART of the "
         "landscape (compute_landscape_by_depth(k), P[k], P[a:b]; else compute_landscape, -P, 2*P, P+P, sup_norm, p_norm); "
+        "in 30% of the usages the sequence starts with 1-2 INTERRUPTED computations (and may contain another one later): "
+        "'interrupt_print' = compute_landscape(verbose=True) while builtins.print raises on its N-th call (N in 1..3n+2 for "
+        "n bars; KeyboardInterrupt / BrokenPipeError / RuntimeError), 'interrupt_line' = compute_landscape() while a "
+        "sys.settrace hook raises at the N-th line executed inside compute_landscape (N in 1..55n); the exception is caught, "
+        "the object (built with compute=False in 90% of these) is used again; an N beyond the end lets the call complete; "
+        "in 30% of them N counts from the END of an uninterrupted run (last 1-3 messages / 1-10 lines, the run length "
+        "measured on another lazily built object on the same diagram objects); "
         "calls that raise are recorded and not judged; judged are the critical_pairs / max_depth read off the object "
-        "AFTER the calls (complete landscape, all depths) and every depth a call handed out on the way; "
-        "call histories in one process on SHARED argument objects (harness/history.py; 24 quick / 500 thorough, 3-9 steps, "
+        "AFTER the calls and a final compute_landscape() (complete landscape, all depths) and every depth a call handed out "
+        "on the way; "
+        "call histories in one process on SHARED argument objects (harness/history.py; 32 quick / 650 thorough, 3-9 steps, "
         "every step judged by the same predicate): 'reuse' one list of 2-3 diagrams (ndarray / list / tuple rows) handed to "
         "several constructors, every degree in turn, lazily and eagerly, the first degree again at the end, optionally an "
         "out-of-range degree in between; 'near' a diagram, then copies that differ in ONE coordinate of one (middle) row by "
         "2^-40..2^-24 (relative to 64) or by 1/2, 1, then the first one again, also as two degrees of one list; "
         "'fault' a construction that raises half-way through the sweep (a row with three entries) or at once "
-        "(degree out of range) between clean calls on the same objects; 'default_arg' 3-4 lazily built objects on different "
+        "(degree out of range) between clean calls on the same objects; 'interrupt' a lazily built object on a well-formed "
+        "diagram whose sweep is interrupted (as above) and which is then used again, followed by eager / lazy / again "
+        "interrupted constructions on THE SAME diagram objects and on a two-degree list that contains them (usage steps of "
+        "the other kinds start with an interruption with probability 0.15); 'default_arg' 3-4 lazily built objects on different "
         "diagrams one after the other, then the first diagram eagerly; history steps are drawn only from diagrams on which "
         "the repeated-bar shortcut (open finding C03-dup-shortcut) is silent, so a failing step is never attributed to it; "
         "non-trivial = the selected diagram has >= 2 finite bars of which at least two have intersecting supports "
@@ -72,6 +85,7 @@ TRUSTED_BASE = [
     "FunctionalExtensionality.functional_extensionality_dep",
     "hand-written model Model/SweepM.v of exact.py lines 124-125 and 257-364",
     "harness: generator, float -> exact rational printer, exception -> outcome mapping, verdict parser; "
+    "the interruption injector (_interrupted: builtins.print replaced / sys.settrace line hook, both restored afterwards); "
     "call histories (harness/history.py) are judged by the spec predicate only (no model run); the generation-time filter "
     "'shortcut silent' of history steps uses the Python transliteration reference_sweep of Model/SweepM.v",
 ]
@@ -85,6 +99,9 @@ ASSUMPTIONS = [
     "been called on it; P[k], P[a:b] and compute_landscape_by_depth(k) hand out the critical points of the 0-based depth "
     "k, i.e. of the definition's (k+1)-th largest tent; whether such a call raises (compute_landscape_by_depth raises "
     "TypeError on a not-yet-computed object in the pinned code) is not part of the property",
+    "an exception that escapes compute_landscape (injected through builtins.print or a sys.settrace hook) and is caught by "
+    "the caller leaves an object whose landscape is still what compute_landscape() yields when called again; what the "
+    "interrupted call itself returned or printed is not judged",
 ]
 COQ_DEPS = ["Corr/SweepCorr.vo", "Proofs/SweepCorrP.vo"]
 FID_DUP = "C03-dup-shortcut"
@@ -327,9 +344,35 @@ def _one_case(rng, cls=None, big=False):
 
 # ---- object usages: the landscape is obtained from ONE object through a sequence of calls ------------------
 
-def _ops(rng, n):
+INTERRUPT_EXC = ["KeyboardInterrupt", "KeyboardInterrupt", "BrokenPipeError", "RuntimeError"]
+
+
+def _interrupt_op(rng, n):
+    """the sweep is interrupted half-way on a WELL-FORMED diagram: compute_landscape(verbose=True) with builtins.print
+    replaced by a function that raises on its N-th call (a Ctrl-C / a broken pipe while progress messages scroll by; the
+    pinned sweep prints about 3 messages per bar), or compute_landscape() with an exception raised at the N-th line
+    executed inside compute_landscape (sys.settrace: a Ctrl-C at an arbitrary point; about 50 lines per bar).  An N
+    beyond the end of the run means the call completes.  A negative N counts from the end of an uninterrupted run (measured
+    at run time on another lazily built object on the same diagram objects): the last messages / closing lines."""
+    n = max(1, n)
+    tail = rng.random() < 0.3           # N < 0: the |N|-th event before the END of an uninterrupted run (the closing lines)
+    if rng.random() < 0.6:
+        return ["interrupt_print", -rng.randint(1, 3) if tail else rng.randint(1, 3 * n + 2), rng.choice(INTERRUPT_EXC)]
+    return ["interrupt_line", -rng.randint(1, 10) if tail else rng.randint(1, 55 * n), rng.choice(INTERRUPT_EXC)]
+
+
+def _ops(rng, n, interrupt=0.0):
     """a short sequence of calls on one PersLandscapeExact object.  The first call usually asks for a PART of
-    the landscape (one depth, a slice); the later ones are the calls that rely on the stored landscape."""
+    the landscape (one depth, a slice); the later ones are the calls that rely on the stored landscape.  With
+    probability `interrupt` the sequence starts with 1-2 interrupted computations (_interrupt_op) and possibly has
+    another one later."""
+    if interrupt and rng.random() < interrupt:
+        pre = [_interrupt_op(rng, n) for _ in range(rng.choice([1, 1, 2]))]
+        rest = _ops(rng, n)
+        if rng.random() < 0.3:
+            rest.insert(rng.randint(0, len(rest)), _interrupt_op(rng, n))
+        return pre + (rest if rng.random() < 0.85 else [])
+
     def k():
         return rng.choice([0, 0, 1, 1, 2, rng.randint(0, max(0, n))])
 
@@ -360,7 +403,9 @@ def _usage_case(rng, big=False):
     c["base_cls"] = c["cls"]
     c["cls"] = "usage"
     c["lazy"] = rng.random() < 0.8
-    c["ops"] = _ops(rng, n)
+    c["ops"] = _ops(rng, n, interrupt=0.3)
+    if c["ops"][0][0].startswith("interrupt") and rng.random() < 0.9:
+        c["lazy"] = True                  # an eagerly built object has nothing left to interrupt
     return c
 
 
@@ -386,11 +431,13 @@ def _silent_case(rng, classes, tries=60):
     return {"cls": "random", "dgms": [[[0.0, 4.0], [1.0, 6.0], [2.0, 3.0]]], "hom_deg": 0, "repr": "float"}
 
 
-def _as_usage(rng, c, lazy=None):
+def _as_usage(rng, c, lazy=None, interrupt=0.15):
     c = dict(c)
     h = c["hom_deg"]
     c["lazy"] = (rng.random() < 0.8) if lazy is None else lazy
-    c["ops"] = _ops(rng, len(c["dgms"][h]) if h < len(c["dgms"]) else 2)
+    c["ops"] = _ops(rng, len(c["dgms"][h]) if h < len(c["dgms"]) else 2, interrupt=interrupt)
+    if c["ops"][0][0].startswith("interrupt") and lazy is None and rng.random() < 0.9:
+        c["lazy"] = True
     return c
 
 
@@ -417,7 +464,7 @@ def _nudged(rng, bars):
 
 
 def _history(rng):
-    kind = rng.choice(["reuse", "reuse", "near", "near", "fault", "default_arg"])
+    kind = rng.choice(["reuse", "reuse", "near", "near", "fault", "default_arg", "interrupt", "interrupt"])
 
     def plain(dgms, h, rep="float"):
         return {"cls": "step", "dgms": dgms, "hom_deg": h, "repr": rep}
@@ -475,6 +522,25 @@ def _history(rng):
                  plain([A], 0, rep)]
         if rng.random() < 0.5:
             steps.append(_as_usage(rng, plain([_silent_case(rng, SMALL_EXACT)["dgms"][0]], 0)))
+    elif kind == "interrupt":
+        # the sweep over a WELL-FORMED diagram is interrupted half-way (an exception out of a progress message or at
+        # an arbitrary line), the exception is caught and the SAME object is used again (compute_landscape(), P[k],
+        # norms, arithmetic); then other objects are built from the same diagram objects, eagerly and lazily, some of
+        # them interrupted as well, and a different diagram at the end.  Every landscape held or handed out after an
+        # interruption must be the complete one of the definition.
+        a = _silent_case(rng, SMALL_EXACT + ["translated", "trailing_inf", "tinygap"])
+        A = a["dgms"][a["hom_deg"]]
+        rep = rng.choice(["float", "float", "list", "tuple"])
+        steps = [_as_usage(rng, plain([A], 0, rep), lazy=True, interrupt=1.0)]
+        if rng.random() < 0.5:
+            steps.insert(0, plain([A], 0, rep))
+        steps.append(plain([A], 0, rep) if rng.random() < 0.5 else _as_usage(rng, plain([A], 0, rep), interrupt=0.0))
+        for _ in range(rng.randint(1, 2)):
+            steps.append(_as_usage(rng, plain([A], 0, rep), lazy=True, interrupt=1.0))
+        b = _silent_case(rng, SMALL_EXACT)
+        B = b["dgms"][b["hom_deg"]]
+        steps.append(_as_usage(rng, plain([A, B], 1, rep), lazy=True, interrupt=0.7))
+        steps.append(plain([A, B], rng.randrange(2), rep))
     else:
         # several lazily built objects one after the other (they share whatever the constructor's default
         # arguments and the class keep between instances), different diagrams
@@ -489,8 +555,8 @@ def _history(rng):
 def generate(rng, tier):
     n_cases = 1500 if tier == "quick" else 60000
     cases = [_one_case(rng, big=(tier != "quick")) for _ in range(n_cases)]
-    cases += [_usage_case(rng, big=(tier != "quick")) for _ in range(100 if tier == "quick" else 4000)]
-    cases += [_history(rng) for _ in range(24 if tier == "quick" else 500)]
+    cases += [_usage_case(rng, big=(tier != "quick")) for _ in range(130 if tier == "quick" else 5000)]
+    cases += [_history(rng) for _ in range(32 if tier == "quick" else 650)]
     if tier == "thorough":
         # bounded-exhaustive: every multiset of <= 3 bars on the integer grid 0..6 (in sorted order and reversed)
         grid = [[float(b), float(d)] for b in range(0, 6) for d in range(b + 1, 7)]
@@ -597,14 +663,88 @@ def _depth(d):
     return [[float(x), float(y)] for x, y in d]
 
 
-def _run_ops(P, ops):
+_INJECTED = {"KeyboardInterrupt": KeyboardInterrupt, "BrokenPipeError": BrokenPipeError, "RuntimeError": RuntimeError}
+
+
+def _interrupted(P, op, mk=None):
+    """['interrupt_print', N, exc]: P.compute_landscape(verbose=True) while builtins.print is a function that prints
+    nothing and raises exc on its N-th call; ['interrupt_line', N, exc]: P.compute_landscape() while a sys.settrace
+    hook raises exc at the N-th line event of the frame(s) of compute_landscape in landscapes/exact.py.  The injected
+    exception is caught here (as the user's try/except or the notebook would); print / the trace hook are restored."""
+    import builtins
+    import sys
+    name, n, exc = op[0], int(op[1]), op[2]
+    if n < 0:
+        # the |n|-th event before the end: count the events of an uninterrupted run on a fresh lazily built object
+        tr0 = _rt["trace"]
+        n_tr0 = len(tr0) if tr0 is not None else 0
+        total = _interrupted(mk(), [name, 10 ** 9, exc])["events"] if mk is not None else 0
+        if tr0 is not None:
+            del tr0[n_tr0:]             # the measuring run is not the observed one
+        n = max(1, total + n + 1)
+    st = {"left": n, "fired": False}
+
+    def boom():
+        st["left"] -= 1
+        if st["left"] == 0:
+            st["fired"] = True
+            e = _INJECTED[exc]("injected by the harness: the computation is interrupted")
+            e._verif_injected = True
+            raise e
+    rec = {}
+    trace = _rt["trace"]
+    n_trace = len(trace) if trace is not None else 0
+    try:
+        if name == "interrupt_print":
+            real = builtins.print
+
+            def quiet_print(*a, **k):
+                boom()
+            builtins.print = quiet_print
+            try:
+                P.compute_landscape(verbose=True)
+            finally:
+                builtins.print = real
+        else:
+            def local(frame, event, arg):
+                if event == "line":
+                    boom()
+                return local
+
+            def tracer(frame, event, arg):
+                co = frame.f_code
+                if co.co_name == "compute_landscape" and co.co_filename.replace("\\", "/").endswith("landscapes/exact.py"):
+                    return local
+                return None
+            old = sys.gettrace()
+            sys.settrace(tracer)
+            try:
+                P.compute_landscape()
+            finally:
+                sys.settrace(old)
+    except _Timeout:
+        raise
+    except BaseException as e:  # noqa
+        if not getattr(e, "_verif_injected", False) and not isinstance(e, Exception):
+            raise                       # a real Ctrl-C / SystemExit of the harness process
+        rec = {"error": type(e).__name__, "msg": str(e)[:120]}
+        if trace is not None:
+            del trace[n_trace:]         # hook entries of the abandoned sweep: the trace describes the sweep that is kept
+    rec["interrupted"] = st["fired"]
+    rec["events"] = n - st["left"]
+    return rec
+
+
+def _run_ops(P, ops, mk=None):
     """the calls of a usage case, in order; a call that raises is recorded and the sequence goes on.  Calls that
     hand out critical points report which depths (0-based) they claim to be."""
     res = []
     for op in ops:
         try:
             name = op[0]
-            if name == "by_depth":
+            if name.startswith("interrupt"):
+                res.append(_interrupted(P, op, mk))
+            elif name == "by_depth":
                 r = P.compute_landscape_by_depth(op[1])
                 res.append({"idx": [op[1]], "ret": [_depth(r)]})
             elif name == "getitem":
@@ -653,7 +793,7 @@ def impl_call(c, memo):
         try:
             if "ops" in c:
                 P = PersLandscapeExact(dgms=dg, hom_deg=c["hom_deg"], compute=not c.get("lazy", True))
-                o["ops"] = _run_ops(P, c["ops"])
+                o["ops"] = _run_ops(P, c["ops"], mk=lambda: PersLandscapeExact(dgms=dg, hom_deg=c["hom_deg"], compute=False))
                 P.compute_landscape()
             else:
                 P = PersLandscapeExact(dgms=dg, hom_deg=c["hom_deg"])
@@ -713,6 +853,11 @@ def _predicate_usage(c, o):
     a call handed out on the way (P[k], P[a:b], compute_landscape_by_depth(k); 0-based depth k = the definition's
     (k+1)-th largest tent).  Calls that raise are not judged."""
     ok, detail = _predicate_one(c, o)
+    if not ok and isinstance(o.get("ops"), list):
+        cut = [j for j, r in enumerate(o["ops"]) if isinstance(r, dict) and r.get("interrupted")]
+        if cut:
+            detail += (" [landscape held by the object after compute_landscape() was called again; call(s) %s of %s were "
+                       "interrupted by an injected exception that the caller caught]" % (cut, json.dumps(c["ops"])))
     if not ok or "error" in o or _not_run(o):
         return ok, detail
     bars, exc = _selected(c)
@@ -756,10 +901,13 @@ def _predicate_one(c, o):
     if any(d <= b for b, d in bars):
         return True, ""        # non-positive bar: outside the property
     cps = [[(Fraction(x), Fraction(y)) for x, y in depth] for depth in o["cps"]]
-    if o.get("max_depth") is not None and o["max_depth"] != len(cps):
-        return False, "max_depth: %r != number of depths %d" % (o["max_depth"], len(cps))
+    # max_depth must be the number of depths held; reported only when the depths themselves are the definition's
+    # (a wrong landscape is the more telling failure)
+    md_ok = o.get("max_depth") is None or o["max_depth"] == len(cps)
+    md_fail = (False, "max_depth: %r != number of depths %d" % (o.get("max_depth"), len(cps)))
     if c.get("tol"):
-        return _predicate_tol(bars, cps)
+        r = _predicate_tol(bars, cps)
+        return r if (not r[0] or md_ok) else md_fail
     # common denominator -> integers (x4 so that midpoints of midpoints stay integral)
     den = 1
     for b, d in bars:
@@ -818,7 +966,7 @@ def _predicate_one(c, o):
             if not ok:
                 return False, ("definition-mismatch: depth %d at t=%s: interpolated value %s, k-th largest tent %s"
                                % (k, Fraction(t, S), Fraction(got, S) if got is not None else None, Fraction(want, S)))
-    return True, ""
+    return (True, "") if md_ok else md_fail
 
 
 def _tol_of(bars):
